@@ -18,7 +18,7 @@ from recipes import JOBS, B2JOBS, NATIVEJOBS, PROPS  # noqa: E402
 # A property whose statement is a composition of per-function facts that carry another property's name: in the jobs
 # that list the composed property, those obligations count for it as well (e.g. C03 = lossless text (C05) + the next
 # state is a function of the stored data (C19) + the drivers carry the checkpoint state (C03.*)).
-COMPOSED_OF = {'C03': ('C05', 'C19'), 'C04': ('C16', 'C10', 'C20'), 'C01': ('C02', 'C07', 'C17'), 'C07': ('C17', 'C01'), 'C20': ('C12',), 'C12': ('C13',), 'C17': ('C07', 'C01', 'C09')}
+from recipes import COMPOSED_OF  # noqa: E402
 
 OUT = os.environ.get('VP_OUT') or os.path.join(ROOT, 'out')
 EVID = os.environ.get('VP_EVID') or os.path.join(ROOT, 'evidence')
@@ -88,6 +88,7 @@ def match_known(known, prop, ob):
 
 def check_property(pid, tier, seed, log=print):
     t0 = time.time()
+    os.environ['VP_PID'] = pid      # the quick tier's fail-fast stops a job only on a failure that counts for this property
     known = load_known()
     jobs = [j for j in JOBS if pid in j['props'] and (tier == 'thorough' or not j.get('thorough_only'))]
     b2 = [j for j in B2JOBS if pid in j['props']]
